@@ -446,6 +446,33 @@ func scenarioMachine(c *hlib.RunCtx) *hlib.Violation {
 			kind := t.Biased(8, 4, 5)
 			mgen.WriteCounterFile(m.t, m.s, m.loc, s.NowT().Add(-time.Duration(ago)*24*time.Hour), days, kind)
 		}
+		if r > 0 && t.Bool(1, 5) {
+			// a late counter file of a week whose report is already there, sent or not
+			// (a process that outlived the report, a copy restored from a backup)
+			var weeks []string
+			if ents, err := os.ReadDir(m.loc); err == nil {
+				for _, e := range ents {
+					if n := e.Name(); len(n) == len("2006-01-02.json") && strings.HasSuffix(n, ".json") {
+						if _, err := time.Parse("2006-01-02", n[:10]); err == nil {
+							weeks = append(weeks, n[:10])
+						}
+					}
+				}
+			}
+			if len(weeks) > 0 {
+				wk := weeks[t.Draw(len(weeks))]
+				w, _ := time.Parse("2006-01-02", wk)
+				if t.Bool(1, 2) {
+					// ... and the user has tidied the week's local copy away: only the unsent report is left
+					if os.Remove(filepath.Join(m.loc, "local."+wk+".json")) == nil {
+						s.Probe("ready-report-without-local-copy")
+					}
+				}
+				days := 1 + t.Draw(7)
+				mgen.WriteCounterFile(m.t, m.s, m.loc, w.Add(-time.Duration(days)*24*time.Hour), days, 0)
+				s.Probe("late-file-of-a-week-with-a-ready-report")
+			}
+		}
 		if t.Bool(1, 5) { // a file that is still active
 			mgen.WriteCounterFile(m.t, m.s, m.loc, s.NowT(), 1+t.Draw(7), 0)
 		}
